@@ -423,8 +423,11 @@ func c21Exec(c *vx.Ctx, w *vx.W, cs c21Case) {
 		if w.Failed() {
 			return
 		}
+		c.AddTransitions(int64(ran))
+		c.AddTraces(1)
 		if ran == len(cs.Ops) || (r.expClosed && ran == len(cs.Ops)-1) {
 			w.Nontrivial()
+			c.AddStates(1) // stateless search: one explored history
 		} else {
 			w.Outcome("case-truncated")
 		}
@@ -740,7 +743,7 @@ func c21Parts(c *vx.Ctx) []c21Part {
 
 func TestVerif_C21(t *testing.T) {
 	vx.Run(t, "C21", func(c *vx.Ctx) {
-		c.Rule("q-peer: for every configuration (conn side, stream type in focus, configured Max*RemoteStreams 0..3, peer initial_max_streams 0..2) every sequence of enabled operations up to the depth of the part, shortest first, each on a fresh handshaken Conn in its own synctest bubble; operations: local NewStream with cancelled / live context, peer MAX_STREAMS (any order, stale values), peer STREAM/FIN/RESET_STREAM/MAX_STREAM_DATA/STOP_SENDING on stream numbers {0,1,2,limit-1,limit,limit+5}, AcceptStream, Close of accepted/local streams, ACK of everything sent; a monitor reads every frame the conn sends after every step. Non-trivial = the whole sequence was executed on the real conn (or ended in the expected STREAM_LIMIT_ERROR at its last step). q-unit: BFS with state dedup over open/close/send on remoteStreamLimits.")
+		c.Rule("q-peer: for every configuration (conn side, stream type in focus, configured Max*RemoteStreams 0..3, peer initial_max_streams 0..2) every sequence of enabled operations up to the depth of the part, shortest first, each on a fresh handshaken Conn in its own synctest bubble; operations: local NewStream with cancelled / live context, peer MAX_STREAMS (any order, stale values), peer STREAM/FIN/RESET_STREAM/MAX_STREAM_DATA/STOP_SENDING on stream numbers {0,1,2,limit-1,limit,limit+5}, AcceptStream, Close of accepted/local streams, ACK of everything sent; a monitor reads every frame the conn sends after every step. Non-trivial = the whole sequence was executed on the real conn (or ended in the expected STREAM_LIMIT_ERROR at its last step). q-unit: BFS with state dedup over open/close/send on remoteStreamLimits. Counters: states = histories explored completely (stateless search, no deduplication), transitions = operations applied to the real conn and checked, traces = cases executed.")
 		c.Assume("a peer stream counts as no longer open once its final size is known to the conn (FIN or RESET_STREAM received) and, for bidirectional streams, a packet carrying the conn's FIN or RESET_STREAM was acknowledged; this is the weakest reading of 'closed', so the simultaneous-streams bound is not over-strict")
 		c.Assume("no packet loss or reordering in this check (C20/C32 cover loss); the advertised limit is the one in frames the scripted peer has actually read; the other stream type is fixed at 1 remote / 0 local streams")
 
